@@ -154,7 +154,7 @@ Definition all_locs (sh : list item) : list (loc * field) :=
                       end) (number_from 0%N sh).
 
 (* ---- parseFields *)
-Inductive perr := ENotPtrStruct | EEmptyName (l : loc) | EUnsupported (l : loc) | ENoFields.
+Inductive perr := ENotPtrStruct | ENilPtr | EEmptyName (l : loc) | EUnsupported (l : loc) | ENoFields.
 Inductive how := HJson | HUnm | HBytes | HString | HHandle.
 Record pfield := PF { ploc : loc; psecret : bstr; phow : how; pty : ftype }.
 
@@ -191,13 +191,20 @@ Fixpoint parse_list (vs : list (loc * field)) : perr + list pfield :=
     end
   end.
 
-(* what ParseFields is handed: a pointer to a struct, a struct (not a pointer), anything else *)
-Inductive arg := AStructPtr (sh : list item) | AStruct (sh : list item) | ANonStruct.
+(* what ParseFields is handed: a (non-nil) pointer to a struct, a struct (not a pointer), any other
+   non-nil value, the untyped nil (`any(nil)`, also StoreConfig.Structs[i].Value left nil), a nil
+   pointer whose element type is a struct of the given shape *)
+Inductive arg := AStructPtr (sh : list item) | AStruct (sh : list item) | ANonStruct
+               | ANil | ANilStructPtr (sh : list item).
 
+(* fields.go:202-212 (after the F9 repair 94ee9a9): an invalid reflect.Value (untyped nil) and every
+   type other than pointer-to-struct are "not a pointer to a struct"; then a nil pointer is refused
+   BEFORE any field is looked at - so also when the struct has no tagged field, or a bad tag *)
 Definition parse_fields (a : arg) : perr + list pfield :=
   match a with
   | AStructPtr sh => match parse_list (visible sh) with inr [] => inl ENoFields | r => r end
-  | _ => inl ENotPtrStruct
+  | ANilStructPtr _ => inl ENilPtr
+  | AStruct _ | ANonStruct | ANil => inl ENotPtrStruct
   end.
 
 Definition full_name (pfx : bstr) (pf : pfield) : name := path_join2 pfx (psecret pf).
